@@ -266,9 +266,9 @@ class _ToInf(TokenConverter):
         Returns
         -------
         float
-            the float value for infinity.
+            the float value for infinity, with the sign of the token.
         """
-        return float('inf')
+        return float(tokenlist[0])
 
 
 class InputFileGenerator(object):
